@@ -263,7 +263,8 @@ def gen_values_spec(rng, real, extreme=False, plain=False):
     elif u < 0.45:
         valid = dict(kind="norm")
     return dict(cplx=cplx, seed=rng.randrange(10 ** 9), scale=sre, scale_im=sim, mag=mag, cls=cls,
-                dtype=dtype, layout=rng.choice(LAYOUTS), valid=valid)
+                dtype=dtype, layout=rng.choice(LAYOUTS), valid=valid, no_dtype_arg=rng.random() < 0.4,
+                re_zero=cplx and rng.random() < 0.08, im_zero=cplx and rng.random() < 0.08)
 
 
 def make_values(spec, shape):
@@ -291,6 +292,10 @@ def make_values(spec, shape):
         im = np.array([one() for _ in range(nvals)])
     s = spec["scale"]
     si = spec.get("scale_im", s)
+    if spec.get("re_zero"):
+        re = np.zeros(nvals)
+    if spec.get("im_zero"):
+        im = np.zeros(nvals)
     if spec["cplx"]:
         out = (re * s + 1j * (im * si)).reshape(shape)
     else:
@@ -327,6 +332,9 @@ def make_valid(spec, mesh):
 
 def field_of(mesh, nv, x, spec, **kw):
     """Field over mesh holding x, handed over in the memory layout / dtype / with the validity of the spec"""
+    if spec.get("no_dtype_arg") and x.dtype in (np.float64, np.complex128):
+        return df.Field(mesh, nvdim=nv, value=relayout(x.copy(), spec.get("layout")),
+                        valid=make_valid(spec, mesh), **kw)
     f = df.Field(mesh, nvdim=nv, value=relayout(x.copy(), spec.get("layout")), dtype=x.dtype,
                  valid=make_valid(spec, mesh), **kw)
     return f
@@ -721,6 +729,36 @@ def oracle_forward(rec, mesh, ft, x, real, tolf=TOL):
     del single
 
 
+def half_of_full(full, n_last):
+    """cells of the centred full spectrum with non-negative last-axis frequency (mod n), in rfft order"""
+    idx = [(n_last // 2 + j) % n_last for j in range(n_last // 2 + 1)]
+    return full[..., idx, :]
+
+
+def real_of_complex(rec, mesh, f, ft, x, n, nv):
+    """rfftn accepted a complex-typed field: the result must be the matching half of fftn"""
+    ncells = int(np.prod(n))
+
+    def cmp(field, res, label):
+        full = field.fftn().array
+        want = half_of_full(full, n[-1])
+        mag = float(np.abs(full).max()) if full.size else 0.0
+        tol = (2e-5 if single(field.array) else 2e-13 * (math.log2(max(ncells, 1)) + 1)) * mag
+        if res.array.shape != want.shape or not close_arr(res.array, want, tol):
+            rec["oracle"].append(label)
+    cmp(f, ft, "real-transform-of-a-complex-field-is-not-the-half-of-the-full-one")
+    if np.any(x.imag != 0):
+        gi = df.Field(mesh, nvdim=nv, value=1j * x.imag, dtype=x.dtype)
+        st, ri = attempt(lambda: gi.rfftn())
+        if st == "ok":
+            cmp(gi, ri, "real-transform-of-an-imaginary-field-is-not-the-half-of-the-full-one")
+        # and the real inverse cannot give a complex field back: the pair is no round trip
+        st, rb = attempt(lambda: ft.irfftn(shape=tuple(n)))
+        if st == "ok" and not close_arr(rb.array, x, rt_tol(x, ncells)):
+            if float(np.abs(x.imag).max()) > 1e-12 * float(np.abs(x).max()):
+                rec["oracle"].append("irfftn-does-not-undo-rfftn-of-a-complex-field")
+
+
 def run_fwd(c, rec):
     m, op, nv = c["mesh"], c["op"], c["nv"]
     mesh = build_mesh(m)
@@ -743,8 +781,10 @@ def run_fwd(c, rec):
         rec.update(obs=dict(err=ft), key=key, size=sum(n) + nv)
         return rec
     if real and np.iscomplexobj(x):
-        rec.update(obs=dict(note="real transform accepted complex data"), key=key, size=sum(n) + nv)
-        return rec
+        # accepted: then it has to be the matching half of the full transform (it cannot be for a
+        # non-zero imaginary part, so only refusal or an exactly real field passes), of the whole
+        # field and of its imaginary part taken alone (relative to that part's own size)
+        real_of_complex(rec, mesh, f, ft, x, n, nv)
     check_kmesh(rec, m, real, ft.mesh)
     oracle_forward(rec, mesh, ft, x, real, 2e-5 if single(x) else TOL)
     obs = dict(shape=list(ft.array.shape), kmesh=mesh_obs(ft.mesh), invalid_cells=int((~f.valid).sum()))
@@ -894,6 +934,11 @@ def run_algebra(c, rec):
             if not close_arr(comp.array[..., 0], F1.array[..., i], tolx):
                 rec["oracle"].append("not-per-component")
     obs = dict(real=isreal, invalid_cells=int((~f.valid).sum()))
+    if not isreal:
+        st, Rc = attempt(lambda: f.rfftn())
+        obs["rfftn_of_complex"] = "accepted" if st == "ok" else "refused"
+        if st == "ok":
+            real_of_complex(rec, mesh, f, Rc, x, n, nv)
     if isreal:
         R = f.rfftn()
         check_kmesh(rec, m, True, R.mesh)
